@@ -21,7 +21,11 @@ for pid in sorted(specs.PROPERTIES):
         'engine': 'pyvc',
         'level_claimed': {'category': cfg.get('level', 'proof'), 'text': cfg['claim'], 'design_ref': cfg.get('design_ref', 'DESIGN.md section 5, ' + pid)},
         'level_note': cfg['note'],
-        'technique': cfg.get('technique', 'contract-based deductive verification: VCs generated from the real ASTs against sidecar contracts, discharged by z3/cvc5'),
+        'technique': cfg.get('technique') or (
+            ('run-time checked contracts against a reference model on all short operation sequences (bounded exploration: %s); only the hook wrapper forwarding is proved deductively' % ', '.join(cfg.get('bounded', [])))
+            if cfg.get('level') == 'exploration' else
+            ('contract-based deductive verification: VCs generated from the real ASTs against sidecar contracts, discharged by z3/cvc5' +
+             ('; labelled bounded stand-ins, never counted as proved: ' + ', '.join(cfg['bounded']) if cfg.get('bounded') else ''))),
     })
 claimed = set(specs.PROPERTIES)
 props = [json.loads(l)['id'] for l in open(os.path.join(ROOT, 'properties.jsonl'))]
